@@ -30,7 +30,7 @@ def run(tier, seed):
     jobs = []
     plan = {}
     for be in bc.BACKENDS:
-        mc = bc.consts(be, 5 if q else 7, nev=2 if q else 3, masks=(1, 2, 3, 5) if q else (1, 2, 3, 4, 5, 6, 7), keeper=(2,))
+        mc = bc.consts(be, 5 if q else 6, nev=2 if q else 3, masks=(1, 2, 3, 5), keeper=(2,))
         ex = bc.consts(be, 3 if q else 4, nev=2, keeper=(2,))
         rnd = bc.consts(be, 14 if q else 24, nfd=3, nev=3, keeper=(2,))
         plan[be] = (mc, ex, rnd)
@@ -42,7 +42,7 @@ def run(tier, seed):
     # the model of the code exhibits the open finding when its trigger is not excluded
     wit = bc.consts("epollcl", 5, nev=2, masks=(1, 2), avoid=False)
     jobs.append((("wit", "epollcl"), lambda: bc.tlc_backend("C05_witness", wit, mode="mc", invariants=["InterestOK"], timeout=600)))
-    results = bc.run_parallel(jobs, nthreads=5 if q else 4)
+    results = bc.run_parallel(jobs, nthreads=7 if q else 4)
 
     ops = {}
     for be in bc.BACKENDS:
@@ -107,3 +107,15 @@ def run(tier, seed):
         "wait = event_base_loop(EVLOOP_ONCE|EVLOOP_NONBLOCK|EVLOOP_NO_EXIT_ON_EMPTY) with the wait call wrapped at link time",
     ]
     return chk.finish()
+
+
+def replay(case, seed):
+    """./check C05 --replay out/replay/C05/violation_N.json : re-execute the recorded history and compare again."""
+    c = case.get("case", case)
+    exe = bc.build_driver()
+    outs = vkit.run_driver(exe, [{"cfg": c["cfg"], "h": bc.strip_obs(c["h"])}])
+    fails = vkit.compare_histories([c["h"]], outs)
+    for (i, k, msg) in fails:
+        print("VIOLATION property=C05 replay: step %d: %s" % (k, msg))
+    print(json.dumps(outs[0]))
+    return 1 if fails else 0
